@@ -15,7 +15,7 @@
      right after the messages of the step (no proposal when the previous block is not yet in its
      store: create_proposal then times out);
    - messages appended by node-level steps are signed by the node's own key. *)
-From Coq Require Import ZArith List Bool.
+From Coq Require Import ZArith List Bool Uint63.
 From EC Require Import Lib.Outcome Lib.U64 Lib.ListW Lib.Obs Model.Msgs Model.Replica Model.ReplicaRun.
 Import ListNotations.
 Open Scope Z_scope.
@@ -434,20 +434,22 @@ Definition run_case := sim_run.
 
 (* ---------- digest of an observation ----------
    Parsing a 400 kB observation literal costs coqc seconds while evaluating the model costs
-   milliseconds, so the correspondence compares a 61-bit polynomial digest of the model's
+   milliseconds, so the correspondence compares a 63-bit polynomial digest of the model's
    observation with the digest of the implementation's (computed by gen/sim_gen.py over the same
-   token stream: OZ z -> 1, z; OL l -> 2, length l, elements); on a digest mismatch the full
-   observations are compared to locate the first difference. *)
-Definition hmix (h t : Z) : Z := (h * 1000003 + t + 12345) mod 2305843009213693951.
-Fixpoint obs_hash_go (h : Z) (o : obsv) {struct o} : Z :=
+   token stream: OZ z -> 1, z; OL l -> 2, length l, elements; arithmetic modulo 2^63 on
+   primitive integers); on a digest mismatch the full observations are compared to locate the
+   first difference. *)
+Definition hmix (h : Uint63.int) (t : Z) : Uint63.int :=
+  Uint63.add (Uint63.add (Uint63.mul h (Uint63.of_Z 1000003)) (Uint63.of_Z t)) (Uint63.of_Z 12345).
+Fixpoint obs_hash_go (h : Uint63.int) (o : obsv) {struct o} : Uint63.int :=
   match o with
   | OZ z => hmix (hmix h 1) z
   | OL l =>
-      (fix go (h : Z) (l : list obsv) {struct l} : Z :=
+      (fix go (h : Uint63.int) (l : list obsv) {struct l} : Uint63.int :=
          match l with
          | [] => h
          | x :: l' => go (obs_hash_go h x) l'
          end) (hmix (hmix h 2) (Z.of_nat (length l))) l
   end.
-Definition obs_hash (o : obsv) : Z := obs_hash_go 7 o.
+Definition obs_hash (o : obsv) : Z := Uint63.to_Z (obs_hash_go (Uint63.of_Z 7) o).
 Definition sim_run_hash (c : sim_case) : obsv := OZ (obs_hash (sim_run c)).
